@@ -59,7 +59,7 @@ func init() {
 		ID:    "C10",
 		Title: "No query, option set or input can crash or hang the host process",
 		Level: "exploration",
-		Rule: "background calls one of whose arguments fails or panics; background calls that read whole rows of a derived table. further families: chains of >= 3 pending results, PARALLEL joins with 130..330 key groups whose ON fails or panics for all / most / five of them, several sort keys with NULLs, LIKE in the ON of PARALLEL joins, a pending result awaited through the register it is stored in, the marker as FROM table and in more spellings, a panicking UnReportedErrors handler. USING joins with 1..5 columns; the marker also as `<-.<-`, '<-', `<-<-`. further families: the same Query executed 2..3 times (first run possibly faulted), PARALLEL joins whose ON touches the variable store, multi-dimensional FROM with 24..63 inner arrays (a per-child heap bound of 3 GiB next to the time watchdog), the bare `<-` marker carried through DISTINCT / GROUP BY / joins / ORDER BY. each case = a query from one of 28 families x one of the 2^3 option sets x a document variant, run through New+Exec inside a crash-isolated child: valid queries of every shape; token-mutated queries; random byte strings and truncations; and the hostile forms the property names, generated systematically - " +
+		Rule: "union chains of 24..39 branches; DISTINCT * inside EXISTS. background calls one of whose arguments fails or panics; background calls that read whole rows of a derived table. further families: chains of >= 3 pending results, PARALLEL joins with 130..330 key groups whose ON fails or panics for all / most / five of them, several sort keys with NULLs, LIKE in the ON of PARALLEL joins, a pending result awaited through the register it is stored in, the marker as FROM table and in more spellings, a panicking UnReportedErrors handler. USING joins with 1..5 columns; the marker also as `<-.<-`, '<-', `<-<-`. further families: the same Query executed 2..3 times (first run possibly faulted), PARALLEL joins whose ON touches the variable store, multi-dimensional FROM with 24..63 inner arrays (a per-child heap bound of 3 GiB next to the time watchdog), the bare `<-` marker carried through DISTINCT / GROUP BY / joins / ORDER BY. each case = a query from one of 28 families x one of the 2^3 option sets x a document variant, run through New+Exec inside a crash-isolated child: valid queries of every shape; token-mutated queries; random byte strings and truncations; and the hostile forms the property names, generated systematically - " +
 			"NATURAL [LEFT|RIGHT] JOIN, UNION chains of 2..5, self- and mutually-referencing CTEs (cycles of length 1..3), unbalanced [ ] under IdiomaticArrays, unterminated quotes under PostgresEscapingDialect, out-of-range / wrong-shape FROM paths, PARALLEL joins whose ON fails or panics on some pair, " +
 			"ASYNC./SPIN./SPINASYNC./ONCE. calls of a harness function that returns an error or panics (error value, string, runtime error) at its k-th invocation, AWAIT forms, SELECT DISTINCT (subquery), *, object comparisons, GROUP BY on objects, absurd LIMITs, 150-deep nesting, scalar/empty/deep/natively-typed documents, nil document, SETVAR without a variable map. " +
 			"Monitors: recover() around New/Exec (an escaped panic is a violation), process exit status (fatal error, goroutine panic: the parent attributes it to the case begun last and re-runs it alone), a per-case watchdog (hang: confirmed by re-running alone with 120 s), and a bounded wait for background function calls to finish after each case. " +
